@@ -502,9 +502,15 @@ def _messages_cannot_fail(chk: Check) -> None:
             if isinstance(e, ast.BinOp) and isinstance(e.op, ast.Add):
                 a_, b_ = literal(e.left, depth + 1), literal(e.right, depth + 1)
                 return False if a_ is False or b_ is False else None if a_ is None or b_ is None else True
-            if isinstance(e, (ast.Name, ast.Attribute)) and not (
-                    isinstance(e, ast.Name) and e.id in f.param_names()):
-                return None
+            if isinstance(e, (ast.Name, ast.Attribute)):
+                root = (attr_path(e) or ("",))[0]
+                local_names = set(f.param_names()) | {x.id for x in walk_no_nested(f.node) if isinstance(x, ast.Name)
+                                                      and not isinstance(x.ctx, ast.Load)}
+                if f.outer is not None:
+                    local_names |= set(f.outer.param_names())
+                # data of this call (a parameter, a local, their attributes) is computed; a name of the
+                # module or of another module may be a constant
+                return False if root in local_names or not root else None
             return False
         for r in walk_no_nested(f.node):
             if not isinstance(r, ast.Raise) or r.exc is None:
